@@ -241,12 +241,11 @@ func applySpec(t *testing.T, s *sim.Sim, h *sim.History, tg Target, sp SettingSp
 		t.Fatalf("%s: view: %v", what, err)
 	}
 	if sp.Immutable {
-		o := mustFail(t, h, what+" (immutable)", l.UpdateSettings(tg, s.Owner, sp.Fields()))
+		mustFail(t, h, what+" (immutable)", l.UpdateSettings(tg, s.Owner, sp.Fields()))
 		after, _ := l.Settings(tg)
 		if after[sp.Name] != before[sp.Name] {
 			t.Fatalf("%s: immutable setting changed %q -> %q", what, before[sp.Name], after[sp.Name])
 		}
-		_ = o
 		return
 	}
 	if before[sp.Name] == sp.View {
@@ -359,5 +358,75 @@ func TestAllSettingSpecs(t *testing.T) {
 			}
 		}
 		fmt.Printf("%s: %d specs checked (%d immutable), view has %d names\n", tg, n, imm, len(view))
+	}
+}
+
+// Behaviours of the settings functions that the documentation of this package states; each on a fork of genesis.
+func TestSettingsObservations(t *testing.T) {
+	s := boot(t)
+
+	// zcnsc: with the shipped min_stake 0 an update that does not raise min_stake fails validation
+	h := s.NewHistory(s.Genesis)
+	l := New(h)
+	o := mustFail(t, h, "zcnsc max_delegates alone", l.ZcnUpdateGlobalConfig(s.Owner, map[string]string{"max_delegates": "20"}))
+	fmt.Println("zcnsc single key without min_stake:", o.Output)
+	o = mustFail(t, h, "zcnsc cost.mint", l.ZcnUpdateGlobalConfig(s.Owner, map[string]string{"cost.mint": "5", "min_stake": "1"}))
+	fmt.Println("zcnsc cost.mint:", o.Output)
+
+	// vestingsc: no validation of the result
+	h = s.NewHistory(s.Genesis)
+	l = New(h)
+	mustOK(t, h, "vestingsc max_destinations 0", l.VestingUpdateSettings(s.Owner, map[string]string{"max_destinations": "0", "min_duration": "-1s"}))
+	m, _ := l.Settings(VestingSettings)
+	fmt.Println("vestingsc accepts invalid configuration: max_destinations =", m["max_destinations"], "min_duration =", m["min_duration"])
+	if m["max_destinations"] != "0" {
+		t.Fatalf("vesting view: %v", m)
+	}
+
+	// storagesc: an invalid value is accepted at staging, then every commit fails until the owner overrides the key
+	h = s.NewHistory(s.Genesis)
+	l = New(h)
+	mustOK(t, h, "storagesc stage invalid", l.StorageUpdateSettings(s.Owner, map[string]string{"max_delegates": "0"}))
+	o = mustFail(t, h, "storagesc commit invalid", l.StorageCommitSettings(s.Clients[1]))
+	fmt.Println("storagesc commit of an invalid staged value:", o.Output)
+	mustOK(t, h, "storagesc stage other key", l.StorageUpdateSettings(s.Owner, map[string]string{"max_read_price": "5"}))
+	o = mustFail(t, h, "storagesc commit still invalid", l.StorageCommitSettings(s.Clients[1]))
+	mustOK(t, h, "storagesc override", l.StorageUpdateSettings(s.Owner, map[string]string{"max_delegates": "100"}))
+	mustOK(t, h, "storagesc commit", l.StorageCommitSettings(s.Clients[1]))
+	m, _ = l.Settings(StorageSettings)
+	st, _ := l.StorageStagedSettings()
+	fmt.Println("storagesc after commit: max_delegates =", m["max_delegates"], "max_read_price =", m["max_read_price"], "staged (never cleared) =", st)
+	if m["max_delegates"] != "100" || m["max_read_price"] != "5" || len(st) != 2 {
+		t.Fatalf("storage view %v staged %v", m, st)
+	}
+	// unknown key / bad value are refused at staging already
+	o = mustFail(t, h, "storagesc unknown key", l.StorageUpdateSettings(s.Owner, map[string]string{"no_such": "1"}))
+	fmt.Println("storagesc unknown key:", o.Output)
+
+	// storagesc after the demeter hard fork: update_settings writes the merged configuration at once, unvalidated
+	h = s.NewHistory(s.Genesis)
+	l = New(h)
+	mustOK(t, h, "add_hardfork demeter", l.MinerAddHardfork(s.Owner, "demeter", h.Round+1))
+	h.NextBlock(1, 2)
+	mustOK(t, h, "storagesc update after demeter", l.StorageUpdateSettings(s.Owner, map[string]string{"max_delegates": "0"}))
+	m, _ = l.Settings(StorageSettings)
+	fmt.Println("storagesc after demeter: update_settings alone gives max_delegates =", m["max_delegates"])
+	if m["max_delegates"] != "0" {
+		t.Fatalf("storage view after demeter: %v", m["max_delegates"])
+	}
+
+	// update_globals: immutable names, bad type, version counter
+	h = s.NewHistory(s.Genesis)
+	l = New(h)
+	v0, stored, _ := l.MinerGlobalsVersion()
+	o = mustFail(t, h, "globals immutable", l.MinerUpdateGlobals(s.Owner, map[string]string{"server_chain.owner": s.Clients[0].ID}))
+	fmt.Println("update_globals immutable:", o.Output)
+	o = mustFail(t, h, "globals bad type", l.MinerUpdateGlobals(s.Owner, map[string]string{"server_chain.block.max_block_cost": "x"}))
+	fmt.Println("update_globals bad type:", o.Output)
+	mustOK(t, h, "globals ok", l.MinerUpdateGlobals(s.Owner, map[string]string{"server_chain.block.max_block_cost": "7"}))
+	v1, _, _ := l.MinerGlobalsVersion()
+	fmt.Printf("update_globals version %d (stored=%v) -> %d; immutable names: %d\n", v0, stored, v1, len(ImmutableNames(MinerGlobals)))
+	if v1 != v0+1 {
+		t.Fatalf("globals version %d -> %d", v0, v1)
 	}
 }
